@@ -349,9 +349,38 @@ func c13Direct(r *Rng, tier string, o *Out) {
 		}
 		pb = c13Mats(prows, pcols, proj, brows, bcols, basis)
 	}
+	// The processor's configured lengths need not be the record's: edge-multi variable-length records are
+	// shorter than configured (both pre-trigger and total); every analysis value must come from the record.
+	cfgNpre, cfgNsamp := npre, n
+	if r.Chance(35) {
+		switch r.Intn(4) {
+		case 0: // record shorter than configured, as in variable-length mode
+			cfgNpre = npre + r.Range(1, 3*npre+5)
+			cfgNsamp = cfgNpre + npost + r.Range(0, npost)
+		case 1: // configured shorter than the record
+			cfgNpre = r.Range(1, npre)
+			cfgNsamp = cfgNpre + r.Range(1, npost)
+		case 2: // same total length, different split
+			cfgNpre = r.Range(1, n-1)
+		default:
+			cfgNpre = r.Pick(1, 2, 3, npre+1, npre-1, 2*npre, 400)
+			if cfgNpre < 1 {
+				cfgNpre = 1
+			}
+			cfgNsamp = r.Pick(n, n, cfgNpre+1, cfgNpre+npost, 2*cfgNpre+7)
+		}
+		if prows > 0 && pcols == n && brows == n { // projectors of the record's shape stay loadable and usable
+			cfgNsamp = n
+		}
+	}
+	if cfgNsamp != n && prows > 0 {
+		// projectors that SetProjectorsBasis would accept for cfgNsamp cannot be applied to this record (deliberate
+		// panic in AnalyzeData); the incompatible-shape cases were built against n, so keep the processor at n
+		cfgNsamp = n
+	}
 	in := append([]dastard.RawType{}, data...)
-	rec, setErr := dastard.VerifAnalyze(npre, n, signed, in, prows, pcols, proj, brows, bcols, basis)
-	o.Case("src direct-%s npre %d nsamp %d signed %d data %s %s %s", kind, npre, n, b2i(signed), ints(data), pb, c13Out(rec, setErr))
+	rec, setErr := dastard.VerifAnalyzeRecord(cfgNpre, cfgNsamp, npre, signed, in, prows, pcols, proj, brows, bcols, basis)
+	o.Case("src direct-%s npre %d cfgnpre %d nsamp %d signed %d data %s %s %s", kind, npre, cfgNpre, cfgNsamp, b2i(signed), ints(data), pb, c13Out(rec, setErr))
 }
 
 // c13Pipe: records published by the real pipeline (PrepareRun, ConfigureProjectorsBases, ProcessSegments ->
@@ -409,7 +438,7 @@ func c13Pipe(r *Rng, tier string, o *Out) {
 		pos += bl
 		for ch := 0; ch < nch; ch++ {
 			for _, rec := range recs[ch] {
-				o.Case("src pipe npre %d nsamp %d signed %d data %s %s %s", rec.Presamples, nsamp, b2i(rec.Signed),
+				o.Case("src pipe npre %d cfgnpre %d nsamp %d signed %d data %s %s %s", rec.Presamples, npre, nsamp, b2i(rec.Signed),
 					ints(rec.Data), mats[ch], c13Out(rec, false))
 			}
 		}
@@ -421,7 +450,7 @@ func c13Fixed(o *Out) {
 	emit := func(kind string, npre int, signed bool, data []dastard.RawType) {
 		in := append([]dastard.RawType{}, data...)
 		rec, setErr := dastard.VerifAnalyze(npre, len(data), signed, in, 0, 0, nil, 0, 0, nil)
-		o.Case("src direct-%s npre %d nsamp %d signed %d data %s pb 0 %s", kind, npre, len(data), b2i(signed), ints(data), c13Out(rec, setErr))
+		o.Case("src direct-%s npre %d cfgnpre %d nsamp %d signed %d data %s pb 0 %s", kind, npre, npre, len(data), b2i(signed), ints(data), c13Out(rec, setErr))
 	}
 	// every post-trigger sample below the pre-trigger mean: peak = 90 - 100 = -10 (was reported as 0)
 	emit("fixed-below", 3, false, []dastard.RawType{100, 100, 100, 90})
@@ -437,6 +466,82 @@ func c13Fixed(o *Out) {
 	emit("fixed-rmsnan", 2094, false, d)
 }
 
+// c13PipeEMT: the real pipeline in edge-multi VARIABLE-LENGTH mode (EdgeMultiMakeShortRecords, requested through the
+// real ConfigureTriggers RPC like the C08 profile of pipe.go): pulses closely behind each other on a sloping
+// baseline, so that real records with a pre-trigger section shorter than the configured one (and a shorter total
+// length) are triggered, analysed and published.  No projectors: they cannot be applied to short records.
+func c13PipeEMT(r *Rng, tier string, o *Out) {
+	dastard.VerifStartClientDrain()
+	nch := r.Range(1, 2)
+	npre := r.Pick(4, 6, 8, 12, 20, r.Range(4, 40))
+	npost := r.Pick(4, 6, 10, 20, r.Range(4, 60))
+	nsamp := npre + npost
+	rate := 100000.0
+	periodNs := int64(10000)
+	dastard.VerifSetSavedTriggers(nil)
+	vs := dastard.NewVerifSource(nch, rate)
+	if err := vs.VerifPrepare(npre, nsamp); err != nil {
+		panic(err)
+	}
+	sc := dastard.VerifNewSourceControl(vs, npre, nsamp)
+	ts := tsSpec{edgeMulti: true, short: true, emLevel: r.Pick(60, 100, 200), emNMono: r.Pick(1, 1, 2), disableZT: r.Chance(60)}
+	chans := make([]int, nch)
+	for i := range chans {
+		chans[i] = i
+	}
+	fts := dastard.FullTriggerState{ChannelIndices: chans, TriggerState: ts.triggerState(periodNs)}
+	var reply bool
+	if err := callRPC(sc, func() error { return sc.ConfigureTriggers(&fts, &reply) }); err != nil {
+		panic(err)
+	}
+	total := nsamp * r.Range(6, 14)
+	signed := make([]bool, nch)
+	streams := make([][]dastard.RawType, nch)
+	for ch := range streams {
+		signed[ch] = r.Chance(30)
+		g := make([]dastard.RawType, total)
+		base := float64(r.Range(2000, 20000))
+		if signed[ch] {
+			base = float64(r.Range(-3000, 3000))
+		}
+		slope := float64(r.Pick(-7, -3, -1, 1, 2, 5, 9)) / float64(r.Pick(1, 2, 3)) // a sloping baseline, far below the trigger level
+		pulse := 0.0
+		decay := 0.80 + float64(r.Intn(18))/100
+		next := npre + r.Range(2, nsamp)
+		noise := r.Pick(0, 0, 1, 2)
+		for i := range g {
+			if i == next {
+				pulse += float64(r.Pick(400, 900, 2500))
+				// mostly closer than a full record: the next record's pre-trigger section is shortened
+				next += r.Pick(npost+1, npost+2, npost+3, npost+npre/2, npost+npre-1, nsamp, nsamp+5, 2*nsamp, r.Range(2, 2*nsamp))
+			}
+			v := int(base+slope*float64(i)+pulse) + r.Range(-noise, noise)
+			g[i] = dastard.RawType(((v % 65536) + 65536) % 65536)
+			pulse *= decay
+		}
+		streams[ch] = g
+	}
+	first := int64(1000000 + r.Intn(1000))
+	pos := 0
+	for _, bl := range partition(r, total, npre, nsamp) {
+		data := make([][]dastard.RawType, nch)
+		for ch := range data {
+			data[ch] = append([]dastard.RawType{}, streams[ch][pos:pos+bl]...)
+		}
+		recs, err := vs.VerifProcessBlock(first+int64(pos), int64(pos)*periodNs, periodNs, data, signed, nil, 0)
+		if err != nil {
+			panic(err)
+		}
+		pos += bl
+		for ch := 0; ch < nch; ch++ {
+			for _, rec := range recs[ch] {
+				o.Case("src pipe-emt npre %d cfgnpre %d nsamp %d signed %d data %s pb 0 %s", rec.Presamples, npre, nsamp, b2i(rec.Signed),
+					ints(rec.Data), c13Out(rec, false))
+			}
+		}
+	}
+}
+
 func genC13(r *Rng, tier string, o *Out) {
 	c13Fixed(o)
 	n := 520
@@ -445,6 +550,8 @@ func genC13(r *Rng, tier string, o *Out) {
 	}
 	for o.n < n {
 		if r.Chance(2) {
+			c13PipeEMT(r, tier, o)
+		} else if r.Chance(2) {
 			c13Pipe(r, tier, o)
 		} else {
 			c13Direct(r, tier, o)
